@@ -56,16 +56,16 @@ type sinkConn struct {
 }
 
 type sink struct {
-	proto string
-	port  int
-	mu    sync.Mutex
-	cond  *sync.Cond
-	ln    net.Listener
-	pc    net.PacketConn
-	conns []*sinkConn // tcp: in accept order
-	dgs   [][]byte    // udp: datagrams in arrival order
-	limit int64       // midline: stop reading the current connection after this many octets (0 = no limit)
-	resets int        // mid-line resets performed
+	proto  string
+	port   int
+	mu     sync.Mutex
+	cond   *sync.Cond
+	ln     net.Listener
+	pc     net.PacketConn
+	conns  []*sinkConn // tcp: in accept order
+	dgs    [][]byte    // udp: datagrams in arrival order
+	limit  int64       // midline: stop reading the current connection after this many octets (0 = no limit)
+	resets int         // mid-line resets performed
 }
 
 func newSink(proto string) (*sink, error) {
